@@ -73,7 +73,13 @@ def handle_missing_node_child[
             ) not in message_buffer.internal_messages:
                 await gateway.send(presentation_message, message_buffer=False)
             # Buffer one message to avoid spamming gateway.
-            await gateway.send(presentation_message, message_buffer=True)
+            message_buffer.internal_messages[
+                (
+                    presentation_message.node_id,
+                    presentation_message.child_id,
+                    presentation_message.message_type,
+                )
+            ] = presentation_message
 
             raise
 
